@@ -24,6 +24,12 @@ func needFacts(r *Result, p *Program, fn *ssa.Function, blk *ssa.BasicBlock, pos
 	facts := tb.FactsAt(blk)
 	for _, it := range items {
 		a, ok := findFact(facts, func(a Atom) bool { return short(a.String()) == it.text })
+		if !ok && strings.HasPrefix(it.key, "body:") {
+			// the body line decoded into a buffer of the reader's own (decodeLine(buf, line)): the
+			// same three rejections stated over the strict raw decoder's Decode and its count,
+			// behind the CR/LF refusal of the very bytes it is given
+			a, ok = bodyFactThroughDecode(facts, it.key)
+		}
 		if ok {
 			r.OK(fn.String(), it.key, pos, "", guardWitness(p, a))
 		} else {
@@ -770,4 +776,33 @@ func emptyRejectedInExpression(itb *TB, fn *ssa.Function) bool {
 		}
 	}
 	return ok
+}
+
+// bodyFactThroughDecode finds, for one of the body-line requirements of R07.1, the equivalent fact
+// over `b64.Decode(dst, bytes.TrimSuffix(line, "\n"))`.
+func bodyFactThroughDecode(facts []Atom, key string) (Atom, bool) {
+	const src = `bytes.TrimSuffix((*bufio.Reader).ReadBytes(Field(Recv.r), 10).0, "\n")`
+	const decPre = `(*base64.Encoding).Decode((base64.Encoding).Strict(Deref(base64.RawStdEncoding)), `
+	_, crlf := findFact(facts, func(a Atom) bool {
+		s := short(a.String())
+		return s == `!bytes.ContainsAny(`+src+`, "\n\r")` || s == `!bytes.ContainsAny(`+src+`, "\r\n")`
+	})
+	if !crlf {
+		return Atom{}, false
+	}
+	return findFact(facts, func(a Atom) bool {
+		s := short(a.String())
+		if !strings.Contains(s, decPre) || !strings.Contains(s, ", "+src+")") {
+			return false
+		}
+		switch key {
+		case "body:strict-b64":
+			return strings.HasPrefix(s, decPre) && strings.HasSuffix(s, ", "+src+").1 == nil")
+		case "body:line-max":
+			return a.Kind == "cmp" && a.Op == "<=" && a.Y != nil && a.Y.S == "48"
+		case "body:ends-on-short-line":
+			return a.Kind == "cmp" && a.Op == "<=" && a.Y != nil && a.Y.S == "47"
+		}
+		return false
+	})
 }
